@@ -27,7 +27,7 @@ def star(k, t):
 
 
 def all_cases(ctx):
-    cs = F.f_unit(8) + F.f_shape() + F.f_bb()
+    cs = F.f_unit(8) + F.f_shape() + F.f_bb() + F.reordered(F.f_shape() + F.f_bb())
     cs += [star(k, t) for k in range(1, 9) for t in ("and", "buf", "xor")]
     cs += [star(7, "input_star")] if False else []
     # an input with many loads
